@@ -557,3 +557,6 @@ func VerifNumAckHandlers(m *Memberlist) int {
 	defer m.ackLock.Unlock()
 	return len(m.ackHandlers)
 }
+
+// VerifDeschedule stops the background tickers (probe, gossip, push/pull) of a running node.
+func VerifDeschedule(m *Memberlist) { m.deschedule() }
